@@ -541,6 +541,8 @@ func natList(xs []int) string {
 
 type emitStats struct {
 	groups, joinsAfterWake, rollovers, cancels, nonOk, maxGroup int
+	wakes                                                       map[string]int // wake-ups by cause
+	rearmJoins                                                  int            // joins of a group whose creator still waited (the interval timer is re-armed)
 }
 
 func emit(e *exec) ([]string, emitStats) {
@@ -651,6 +653,9 @@ func emit(e *exec) ([]string, emitStats) {
 			if woken[g] && !unpub[g] {
 				st.joinsAfterWake++
 			}
+			if existed && !woken[g] {
+				st.rearmJoins++
+			}
 			evs = append(evs, tw(fmt.Sprintf("(LJoin %d %d %d %v, ObJoin %d %d %v %v)", c.funcOf(who), vid, c.shardOf(vid), !existed && cancelled[who], g, index, existed, closedNow)))
 		case "batch.wake":
 			g := gid(a[0])
@@ -659,6 +664,10 @@ func emit(e *exec) ([]string, emitStats) {
 				flush(g)
 			}
 			woken[g] = true
+			if st.wakes == nil {
+				st.wakes = map[string]int{}
+			}
+			st.wakes[a[1].(string)]++
 			evs = append(evs, tw(fmt.Sprintf("(LWake %d %s, ObNone)", g, cause)))
 		case "batch.unpublish":
 			deleted[gid(a[0])] = true
@@ -1058,7 +1067,7 @@ func runInChild(c *Case, dir string, idx int) (fs []failure, evs []string, st em
 				for _, f := range o.Fails {
 					fs = append(fs, failure{f[0], f[1]})
 				}
-				st = emitStats{o.St[0], o.St[1], o.St[2], o.St[3], o.St[4], o.St[5]}
+				st = emitStats{groups: o.St[0], joinsAfterWake: o.St[1], rollovers: o.St[2], cancels: o.St[3], nonOk: o.St[4], maxGroup: o.St[5]}
 				return fs, o.Evs, st, o.All, o.Holds
 			}
 		}
@@ -1206,6 +1215,14 @@ func main() {
 		}
 		if st.cancels > 0 {
 			run.Hist("saw:cancellation")
+		}
+		for cause, n := range st.wakes {
+			if n > 0 {
+				run.Hist("timed:wake-by-" + cause)
+			}
+		}
+		if st.rearmJoins > 0 && st.wakes["interval"] > 0 {
+			run.Hist("timed:interval-wake-after-re-arming-joins")
 		}
 		for _, mc := range e.many {
 			run.Hist("many-outcome:" + mc.outcome)
